@@ -264,7 +264,8 @@ def gen_case(rng, tier, op=None, lens=None, dtype=None, recv=None):
     if op == "concat1":
         k = rng.randint(1, 3)
         n = len(L())
-        return {"op": op, "parts": [spec(rng, [rng.choice([0, 0, 1, 2, 3]) for _ in range(n)], dtype, rv()) for _ in range(k)]}
+        dts = [dtype] * k if rng.random() < 0.6 else [rng.choice(gen.DT_ALL) for _ in range(k)]
+        return {"op": op, "parts": [spec(rng, [rng.choice([0, 0, 1, 2, 3]) for _ in range(n)], dts[i], rv()) for i in range(k)]}
     if op in ("rslice_1d", "nps"):
         Lv = rng.randint(1, 9)
         k = rng.randint(0, 5)
@@ -324,6 +325,11 @@ def directed():
                 for recv in ["fresh", "lazyrows", "lazycols+2", "lazychain"]:
                     for _ in range(2):
                         yield gen_case(rng, "quick", op, lens, dtype, recv)
+    # mixed element types: the result type is numpy's promotion of all operands, whatever their order
+    for d1, d2 in [("int64", "float64"), ("bool", "int64"), ("int32", "int64"), ("uint8", "int8"), ("float32", "int64"), ("int8", "bool")]:
+        for axis_op in ("concat0", "concat1"):
+            yield {"op": axis_op, "parts": [spec(rng, [2, 0, 1], d1), spec(rng, [1, 2, 0], d2)]}
+            yield {"op": axis_op, "parts": [spec(rng, [0, 0], d1), spec(rng, [1, 2], d2), spec(rng, [0, 1], d1)]}
     # operands without rows / with only empty rows in the middle of a concatenation
     for mid in [[], [0, 0], [0]]:
         for dtype in ["int64", "float32"]:
